@@ -710,7 +710,10 @@ def signature(case, impl, models):
         return "udp4-zero-checksum"
     if op in ("o82ins", "o82strip"):
         n = sum(1 for c, _, _ in walk4(unhx(t[-1])) if c == 82)
-        return "opt82-multiple-existing" if n >= 2 else "opt82-other"
+        # the recorded defect leaves exactly one client option 82 behind
+        left = kv.get("gp", "").split(".").count("82")
+        want = 0 if (op == "o82strip" or t[1] == "drop") else 1
+        return "opt82-multiple-existing" if n >= 2 and left == want + 1 else "opt82-other"
     if op in ("setu32", "setip", "proxy"):
         pkt = unhx(t[-1])
         codes = [51, 54, 58, 59] if op == "proxy" else [int(t[1])]
@@ -726,7 +729,13 @@ def signature(case, impl, models):
     if op == "lt6":
         return "v6-t2-uint32-overflow" if int(t[1]) * 4 >= M32 else "lt6-other"
     if op in ("pool", "resolved"):
-        return "reply-option-over-255"
+        # only when some option value really exceeds 255 bytes (DNS list, route bytes, raw option)
+        nd = int(t[9 if op == "pool" else 10])
+        over = nd >= 64 or any("," in x and x.count(",") == 1 and len(x.split(",")[1]) > 510 for x in t)
+        if op == "resolved":
+            rest = t[11 + nd:]
+            over = over or int(rest[0]) >= 29
+        return "reply-option-over-255" if over else "reply-other"
     return op + "-other"
 
 
@@ -830,21 +839,82 @@ def shrink(case):
             yield " ".join(t[:i] + [hx(b)] + t[i + 1:])
 
 
+def _tail_kind(pkt):
+    if len(pkt) < 240:
+        return "short"
+    i = 240
+    while i < len(pkt):
+        c = pkt[i]
+        if c == 0:
+            i += 1
+            continue
+        if c == 255:
+            return "end" if i == len(pkt) - 1 else "end+trailer"
+        if i + 1 >= len(pkt) or i + 2 + pkt[i + 1] > len(pkt):
+            return "truncated"
+        i += 2 + pkt[i + 1]
+    return "noend"
+
+
+def _raw_sum4(f):
+    """32-bit UDP checksum sum of an IPv4 frame with the checksum field taken as zero"""
+    u = bytearray(f[20:])
+    u[6:8] = b"\0\0"
+    return csum_words(bytes(f[12:20])) + 17 + len(u) + csum_words(bytes(u))
+
+
 def distribution(cases, impl):
     d = {}
+
+    def inc(k):
+        d[k] = d.get(k, 0) + 1
     for c, o in zip(cases, impl):
-        op = c.split(" ", 1)[0]
-        d[op] = d.get(op, 0) + 1
+        t = c.split()
+        op = t[0]
+        inc(op)
         if o is None:
             continue
         h = o.split(" ", 1)[0]
         if h in ("nil", "err", "panic", "hang"):
-            d[op + "_" + h] = d.get(op + "_" + h, 0) + 1
+            inc(op + "_" + h)
         if " z=1" in o:
-            d["zero_udp_checksum"] = d.get("zero_udp_checksum", 0) + 1
+            inc("zero_udp_checksum_field")
+        if op in ("o82ins", "o82strip", "setu32", "setip", "proxy", "giaddr", "hops"):
+            pkt = unhx(t[-1])
+            inc("tail_" + _tail_kind(pkt))
+            if any(l == 255 for _, _, l in walk4(pkt)):
+                inc("has_255_byte_option")
+            if any(b == 0 for b in pkt[240:]):
+                inc("has_pad")
         if op in ("o82ins", "o82strip"):
-            n = sum(1 for cc, _, _ in walk4(unhx(c.split()[-1])) if cc == 82)
-            d["pre_existing_82_%d" % min(n, 3)] = d.get("pre_existing_82_%d" % min(n, 3), 0) + 1
+            n = sum(1 for cc, _, _ in walk4(unhx(t[-1])) if cc == 82)
+            inc("pre_existing_82_%d" % min(n, 3))
+            if op == "o82ins":
+                inc("policy_" + t[1])
+        if op in ("setu32", "setip"):
+            inst = [l for cc, _, l in walk4(unhx(t[-1])) if cc == int(t[1])]
+            inc("target_" + ("absent" if not inst else "ok" if inst == [4] else "dup" if len(inst) > 1 else "badlen"))
+        if op in ("pool", "resolved"):
+            inc("hwlen_%d" % (0 if t[3] == "-" else len(t[3]) // 2))
+            if "gp=" in o and "," in o.split("gp=")[1]:
+                codes = [x.split(":")[0] for x in o.split("gp=")[1].split(",", 3)[3].split(".")]
+                if any(codes.count(k) > 1 for k in ("53", "54", "51", "1", "3", "6", "121")):
+                    inc("reply_with_duplicate_standard_option")
+                if len(codes) != len(set(codes)):
+                    inc("reply_with_repeated_code")
+        if op == "resolved":
+            for r in t:
+                q = r.split(",")
+                if len(q) == 3 and q[0].isdigit() and (q[1] == "nil" or len(q[1]) != 8 or int(q[0]) > 32):
+                    inc("route_non_ipv4_or_odd_prefix")
+                    break
+        if op in ("ip4", "udp4", "wrap", "pool", "resolved") and h not in ("nil", "err", "panic", "hang") and len(h) >= 56:
+            f = bytes.fromhex(h)
+            S = _raw_sum4(f)
+            if (S >> 16) + (S & 0xFFFF) >= 0x10000:
+                inc("udp4_sum_needs_second_fold")
+            if f[26:28] == b"\xff\xff":
+                inc("udp4_checksum_ffff")
         if " gp=err" in o:
-            d["gp_err"] = d.get("gp_err", 0) + 1
+            inc("gp_err")
     return d
